@@ -149,7 +149,7 @@ Definition hyp_ok (a : astore) (o : op) : bool :=
   | OReadSync l _ c | ORead l _ c =>
       match l with Some l => id_ok l | None => true end
       && match c with Some c => id_ok c && negb (c =? max128) | None => true end
-  | OHead t c => id_ok c && negb (has_nul t)
+  | OHead t c => id_ok c
   | _ => true
   end.
 
